@@ -47,11 +47,15 @@ PROG = {
 TAGS = [None, 'a', 'b']
 # the pickle persister's directory is the caller's choice: names with glob/regex metacharacters are directories too
 DIRNAMES = ['store', 'run[1]', 'a*b?', '[ab]', 'x.pickle']
-TAG_SETS = {'str': [None, 'a', 'b'], 'int': [None, 0, 1], 'strempty': [None, '', 'b']}
+TAG_SETS = {'str': [None, 'a', 'b'], 'int': [None, 0, 1], 'strempty': [None, '', 'b'], 'strodd': [None, 'step 1', 'step_1']}
 PID_SETS = {
     'int': [11, 22, 33, 44],
     'str': ['p1', 'p2', 'p1x', 'zz'],
     'uuid': [uuid.UUID(int=i) for i in (1, 2, 3, 4)],
+    # separator-free strings that differ only in characters a file name sanitiser would fold together
+    'strodd': ['job 1', 'job_1', 'job#1', 'job:1'],
+    # integers whose decimal forms are prefixes of one another
+    'intprefix': [1, 12, 100, 2],
 }
 
 
@@ -76,6 +80,12 @@ def enumerate_cases(tier, scope):
             yield {'pid_kind': kind, 'dirname': dirname, 'ops': [
                 ['save', 0, None], ['save', 1, 'a'], ['progress', 0], ['poison', 0], ['save', 0, None], ['save', 0, 'b'], ['load', 0, None], ['load', 0, 'b'],
                 ['list_all'], ['list_pid', 0], ['heal', 0], ['save', 0, 'b'], ['load', 0, 'b'], ['delete_pid', 0], ['list_all'], ['load', 1, 'a']]}
+    # ids and tags that only differ in non-word characters are different keys
+    for seq in (
+        [['save', 0, None], ['progress', 1], ['save', 1, None], ['save', 2, 'step 1'], ['progress', 2], ['save', 2, 'step_1'], ['load', 0, None], ['load', 1, None], ['load', 2, 'step 1'], ['load', 2, 'step_1'], ['list_all'], ['delete', 1, None], ['load', 0, None], ['list_pid', 0], ['delete_pid', 2], ['list_all']],
+        [['save', 1, 'step_1'], ['load', 1, 'step 1'], ['load', 0, 'step_1'], ['delete', 1, 'step 1'], ['load', 1, 'step_1'], ['list_all']],
+    ):
+        yield {'pid_kind': 'strodd', 'tag_kind': 'strodd', 'ops': seq}
     # falsy tags (0, '') are tags too: they must not collide with the untagged checkpoint
     for tag_kind, falsy in (('int', 0), ('strempty', '')):
         for kind in PID_SETS:
@@ -91,7 +101,7 @@ def enumerate_cases(tier, scope):
 def _cases(draw, tier):
     n = draw(st.integers(1, 40))
     ops = []
-    tag_kind = draw(st.sampled_from(['str', 'str', 'int', 'strempty']))
+    tag_kind = draw(st.sampled_from(['str', 'str', 'int', 'strempty', 'strodd']))
     tags = TAG_SETS[tag_kind]
     for _ in range(n):
         kind = draw(st.sampled_from(['save', 'save', 'save', 'save', 'load', 'load', 'load', 'list_all', 'list_pid', 'delete', 'delete_pid', 'progress', 'progress', 'run_loaded', 'poison', 'heal']))
@@ -108,7 +118,7 @@ def _cases(draw, tier):
             ops.append([kind, p])
         else:
             ops.append([kind])
-    case = {'pid_kind': draw(st.sampled_from(['int', 'int', 'str', 'uuid'])), 'tag_kind': tag_kind, 'ops': ops}
+    case = {'pid_kind': draw(st.sampled_from(['int', 'int', 'str', 'uuid', 'strodd', 'intprefix'])), 'tag_kind': tag_kind, 'ops': ops}
     if draw(st.integers(0, 2)) == 0:
         case['dirname'] = draw(st.sampled_from(DIRNAMES))
     case['two_handles'] = draw(st.booleans())
